@@ -1,9 +1,10 @@
 (* Rawdb/Crash.v — L2: durability traces of rawdb and the crash monitor (C05, C12 crash part).
    A trace is the sequence of durability events one execution produced (the real library
    reports them through the verification tap; the harness abstracts them to this alphabet).
-   `mon_step` is a DECIDABLE discipline; Rawdb/CrashProofs.v proves that a trace accepted by the
-   monitor is safe at EVERY crash point and for EVERY choice of which page versions reached the
-   disk.  DEFINITIONS ONLY. *)
+   `mon_step` is a DECIDABLE discipline; Rawdb/CrashInv.v, CrashSound.v, CrashReopen.v (OS mode),
+   CrashLibDefs.v + CrashLib.v (LIB mode) and CrashCompact.v (punches) prove that a trace accepted
+   by the monitor is safe at EVERY crash point and for EVERY choice of which page versions
+   reached the disk.  DEFINITIONS ONLY. *)
 From Anydb Require Import Common.Base Gen.Consts Rawdb.AMap Rawdb.Alloc.
 
 (* data content written by an event: absolute address -> byte *)
@@ -145,7 +146,7 @@ Definition mon_step (m : mon) (e : cev) : mon * bool :=
   | CPromote => (m, true)
   | CFlushed =>
       (mkMon (m_dur m) (m_pend m) (m_pdata m) (m_dmem m) (m_vmem m) (m_len m) (m_cur m)
-             (Some (live_durable m, m_dmem m)) [],
+             (Some (live_durable m, m_dmem m)) (m_cur m),   (* ids of an operation still in progress stay touched *)
        (* M6: flush returns only when no metadata write is pending and no live region has unsynced data *)
        match m_pend m with
        | [] => forallb (fun p => forallb (fun r => let '(off, len, _) := r in
